@@ -1,11 +1,24 @@
 use crate::fw::{Ctx, Outcome};
 
+pub mod c02_e2e;
+pub mod c04;
+pub mod c09;
+pub mod c10;
 pub mod c11;
+pub mod c16;
+pub mod c17;
+pub mod e2e;
 pub mod smoke;
 
 pub fn dispatch(ctx: &Ctx) -> Option<Outcome> {
     Some(match ctx.prop.as_str() {
+        "C02" => c02_e2e::run_b(ctx),
+        "C04" => c04::run(ctx),
+        "C09" => c09::run(ctx),
+        "C10" => c10::run(ctx),
         "C11" => c11::run(ctx),
+        "C16" => c16::run(ctx),
+        "C17" => c17::run(ctx),
         "smoke" => smoke::run(ctx),
         "wire-selftest" => {
             let mut o = Outcome::new();
@@ -22,6 +35,7 @@ pub fn dispatch(ctx: &Ctx) -> Option<Outcome> {
 /// Entry for `verif-harness child <name> ...` (crash-isolated sub-work).
 pub fn child_main(args: &[String]) -> i32 {
     match args.first().map(|s| s.as_str()) {
+        Some("c09-big") => crate::checks::c09::child_big(&args[1..]),
         _ => {
             eprintln!("unknown child {:?}", args.first());
             2
